@@ -193,12 +193,26 @@ func runC20(c *Ctx) {
 				truthFact(vCall("(*ls.Lease).IsExpired", existing), true, "existing.IsExpired()"),
 			})
 			// read errors other than not-exist abort
-			rerr := vIs(resultOf(gate, 2))
+			rerr := vIs(resultOf(gate, errResultIndex(gate.Common().Signature())))
 			c.requireAlts("R3-acquire-gate", acq, Site{w, "writeLease"}, []FP{
 				cmpFact(rerr, token.EQL, vNil(), "readLease err == nil"),
 				truthFact(vCall("errors.Is", rerr, vGlobal("os.ErrNotExist")), true, "errors.Is(err, os.ErrNotExist)"),
 			})
-			c.check(vIs(resultOf(gate, 1))(namedArg(w, "etag")) && !vConstStr("")(namedArg(w, "etag")), "R4-token-from-same-read", fnName(acq)+": writeLease etag = ETag returned by the read that produced `existing`", c.pos(w),
+			// the ETag of that read: its ETag result, or the ETag field of the lease it returned
+			// ("" only as the other alternative, when no lease exists)
+			okTok, sawTok := true, false
+			for _, o := range origins(namedArg(w, "etag")) {
+				switch {
+				case resultOf(gate, 1) != nil && !isErrorType(resultOf(gate, 1).Type()) && o == resultOf(gate, 1):
+					sawTok = true
+				case vFieldLoad("Lease.ETag", vIs(resultOf(gate, 0)))(o):
+					sawTok = true
+				case isConst(o) && vConstStr("")(o):
+				default:
+					okTok = false
+				}
+			}
+			c.check(okTok && sawTok, "R4-token-from-same-read", fnName(acq)+": writeLease etag = ETag returned by the read that produced `existing`", c.pos(w),
 				"result 1 of the gating readLease", "the conditional write does not use the ETag of the lease state it judged (a concurrent takeover would be overwritten)")
 			// generation
 			f := compositeFields(namedArg(w, "lease"))
@@ -392,7 +406,6 @@ func runC20(c *Ctx) {
 }
 
 func isConst(v ssa.Value) bool { _, ok := v.(*ssa.Const); return ok }
-
 
 // fieldStoresOf lists the stores to field `name` of the struct literal v denotes.
 func fieldStoresOf(v ssa.Value, name string) []*ssa.Store {
